@@ -6,8 +6,13 @@ Two entry points of cryoCAT are checked against one Lean model of the greedy rul
 All numbers travel as integers: every value lies on a dyadic grid and is sent multiplied by the grid's power of two
 (positions, radius, scores and group values by 2**10; map scores / angles by the scale stored in the case), so the
 numpy float computation is exact and equals the model's integer computation.
+
+Kinds of findings: `spec` only when a clause of the statement fails on the REAL output as decided by a Lean verified checker
+(checkClean / checkCleanLe / checkPeaks) or by a direct evaluation that uses neither the implementation's own sub-results nor
+the model (returned row is not an input row, numeric field returned as text, caller-owned input modified, None although voxels
+exceed the threshold, exception raised inside cryocat on an input of the quantifier).  Every comparison with the model is `corr`.
 """
-import os, io, ast, math, tempfile, contextlib
+import os, io, ast, copy, math, hashlib, tempfile, contextlib, traceback
 import numpy as np
 import core
 
@@ -21,12 +26,21 @@ CI = {c: i for i, c in enumerate(COLS)}
 FEATURES = ["tomo_id", "object_id", "class", "subtomo_mean", "geom1", "geom2", "geom3", "geom4", "geom5"]
 RULE = ("85% particle lists: 1..400 particles (quick mostly <= 80) on the 2^-10 grid laid out as clusters / chains with spacing just "
         "above and below d / uniform boxes / exact duplicates / copies of one arrangement in several groups, positions split at random "
-        "into x + shift_x, 1..4 groups under one of 9 grouping fields (other id fields filled with unrelated values), scores distinct, "
-        "tied (15%) or correlated with position, either score direction, d in (0.25, 24]; exact distance ties inside a group are excluded "
-        "(d is nudged). 15% score maps: boxes up to 16^3 quick / 40^3 thorough incl. flat and non-cubic ones, plateau-free scores "
+        "into x + shift_x, 1..4 groups under one of 9 grouping fields (other id fields filled with unrelated values); group values small "
+        "(0, -1, 1.5, 1..100), LARGE AND ADJACENT (base 1e5..1e9 + 0,1,2,3: 25%) or adjacent grid values 2^-10 apart (8%); DataFrame index "
+        "default / duplicate labels (concat of two lists) / permuted / sparse / all equal; scores distinct, tied (15%) or correlated with "
+        "position, either score direction, d in (0.25, 24]; exact distance ties inside a group are excluded (d is nudged) except in a 3% "
+        "stream that plants a pair at distance exactly d (outside the quantifier: reported only when BOTH readings `<` and `<=` reject). "
+        "30% of the calls omit every keyword whose value is the documented default (keep_greater=True, metric_id='score', "
+        "angles_order='zxz', angles_numbering=0). 15% of the cases make 1-2 further calls in the same process on the SAME caller-owned "
+        "DataFrame / ndarrays / CSV path (columns overwritten in place, file rewritten between the calls); every call is judged alike and "
+        "the caller-owned inputs are compared before/after each call. "
+        "15% score maps: boxes up to 16^3 quick / 40^3 thorough incl. flat and non-cubic ones, plus DENSE large maps (35..40 per side, 85-98% "
+        "of the voxels above the threshold, i.e. > 2^15 candidates, diameter 1.5..3: 2 per quick run, ~0.5% thorough), plateau-free scores "
         "(blob field * N + permutation), threshold between two scores or exactly equal to a voxel's score or above the maximum, "
         "diameter 0.5..6.5 in quarter steps (integer diameters give exact distance ties, which the closed ball decides), angle list "
-        "1..40 rows as ndarray or CSV file, numbering 0/1, order zxz/zzx, 3% angle-map entries beyond the list. "
+        "1..40 rows as ndarray or CSV file, numbering 0/1, order zxz/zzx, 3% angle-map entries beyond the END of the list (entries BELOW "
+        "the numbering point to no list row and are outside the quantifier: never generated; the model rejects them). "
         "non-trivial: list with >= 3 particles of which >= 1 is removed and >= 1 kept / map with >= 2 voxels above threshold of which "
         ">= 1 is suppressed; distinct = distinct case content")
 ASSUMPTIONS = [
@@ -35,9 +49,12 @@ ASSUMPTIONS = [
     "np.argsort / sorted order candidates by score; how equal scores are ordered is irrelevant to the theorems (any non-increasing order) and cases with tied scores are judged by the verified checker only",
     "pandas: boolean-mask selection keeps row order, concat keeps order, read_csv(header=None) parses repr(float) exactly",
     "sklearn DBSCAN(min_samples=1) labels every point (no peak is dropped when cluster_size is None)",
+    "angle-map entries below `angles_numbering` (e.g. 0 with numbering 1) point to no row of the angle list and are OUTSIDE the quantifier (decision of the integrator, audit C07-1): numpy wraps such an index to the end of the list, the model answers badAngle (theorem peakOf_below_numbering); such maps are never generated and no finding is raised for them",
+    "a list holding two particles of one group at distance exactly d is outside the quantifier: it is reported only when the verified checker rejects the result under both readings (`dist < d` and `dist <= d` count as close)",
+    "group independence is judged by the verified checker applied to each group's sub-list (theorem spec_iff_groups: the clauses decompose over the groups), not by re-running the implementation per group",
 ]
-TRUSTED = ["harness scaling of dyadic values to integers (props/c07.py), comparison of squared distances instead of distances (d > 0)"]
-
+TRUSTED = ["harness scaling of dyadic values to integers (props/c07.py), comparison of squared distances instead of distances (d > 0)",
+           "the direct evaluations of props/c07.py judge(): row identity by subtomo_id + bit comparison, dtype kinds, before/after comparison of caller-owned inputs"]
 
 # ------------------------------------------------------------------ translator
 CMP = {"Lt": "lt", "LtE": "le", "Gt": "gt", "GtE": "ge"}
@@ -47,78 +64,321 @@ def _cmp(node):
     return CMP.get(type(node.ops[0]).__name__, "other")
 
 
+class _View:
+    """Rename-insensitive view of one function.  `text(node)` is the source text of an expression in which every
+    local name is replaced by what it is bound to (single binding: its defining expression; several bindings:
+    ALT(def1, def2, ..) in source order; loop variable: EACH(iterable); tuple target k: value[k]; a name met while it is
+    being expanded: REC, or the bare parameter when it is a parameter that is re-assigned).  Parameters, attributes,
+    globals and keyword names stay as they are (they are the function's interface).  Two functions that differ only in the
+    names of local variables give the same texts; a changed operator, constant, column, keyword or order of operations
+    gives a different one.  `dump()` is the whole body, statement kinds + expressions, with locals numbered in order of
+    first binding (v0, v1, ..) - any added, removed or altered statement changes it."""
+
+    def __init__(self, fn):
+        self.fn = fn
+        a = fn.args
+        self.params = [x.arg for x in a.posonlyargs + a.args + a.kwonlyargs] + ([a.vararg.arg] if a.vararg else []) + ([a.kwarg.arg] if a.kwarg else [])
+        self.binds = {}
+        self.order = []
+        for node in self._walk_in_order(fn):
+            if isinstance(node, ast.Assign):
+                for t in node.targets:
+                    self._bind(t, node.value)
+            elif isinstance(node, ast.AnnAssign) and node.value is not None:
+                self._bind(node.target, node.value)
+            elif isinstance(node, ast.AugAssign):
+                self._bind(node.target, ast.BinOp(left=ast.Name(id="REC", ctx=ast.Load()), op=node.op, right=node.value))
+            elif isinstance(node, (ast.For, ast.comprehension)):
+                self._bind(node.target, ast.Call(func=ast.Name(id="EACH", ctx=ast.Load()), args=[node.iter], keywords=[]))
+            elif isinstance(node, ast.With):
+                for it in node.items:
+                    if it.optional_vars is not None:
+                        self._bind(it.optional_vars, it.context_expr)
+            elif isinstance(node, ast.NamedExpr):
+                self._bind(node.target, node.value)
+        self._memo = {}
+        self._texts = {}
+
+    @staticmethod
+    def _walk_in_order(fn):
+        out = []
+
+        def rec(n):
+            out.append(n)
+            for c in ast.iter_child_nodes(n):
+                rec(c)
+        for st in fn.body:
+            rec(st)
+        return out
+
+    def _bind(self, target, value):
+        if isinstance(target, ast.Name):
+            if target.id not in self.binds:
+                self.binds[target.id] = []
+                self.order.append(target.id)
+            self.binds[target.id].append(value)
+        elif isinstance(target, (ast.Tuple, ast.List)):
+            for i, el in enumerate(target.elts):
+                self._bind(el, ast.Subscript(value=value, slice=ast.Constant(value=i), ctx=ast.Load()))
+        elif isinstance(target, ast.Starred):
+            self._bind(target.value, value)
+
+    # ---- expansion (expanded sub-trees are shared, never mutated; memo per (name, names being expanded))
+    def _expand_name(self, name, busy):
+        if name not in self.binds:
+            return ast.Name(id=name, ctx=ast.Load())
+        if name in busy:
+            return ast.Name(id=name if name in self.params else "REC", ctx=ast.Load())
+        key = (name, busy)
+        if key in self._memo:
+            return self._memo[key]
+        busy2 = busy | {name}
+        uniq, seen = [], set()
+        for v in self.binds[name]:
+            d = self._expand(v, busy2)
+            t = ast.unparse(d)
+            if t not in seen:
+                seen.add(t)
+                uniq.append(d)
+        res = uniq[0] if len(uniq) == 1 else ast.Call(func=ast.Name(id="ALT", ctx=ast.Load()), args=uniq, keywords=[])
+        self._memo[key] = res
+        return res
+
+    def _expand(self, node, busy=frozenset()):
+        view = self
+
+        class T(ast.NodeTransformer):
+            def __init__(self):
+                self.lam = {}
+
+            def visit_Lambda(self, n):
+                names = [x.arg for x in n.args.args]
+                old = dict(self.lam)
+                for i, nm in enumerate(names):
+                    self.lam[nm] = f"_a{i}"
+                body = self.visit(n.body)
+                self.lam = old
+                return ast.Call(func=ast.Name(id="LAMBDA", ctx=ast.Load()), args=[ast.Constant(value=len(names)), body], keywords=[])
+
+            def visit_Name(self, n):
+                if n.id in self.lam:
+                    return ast.Name(id=self.lam[n.id], ctx=ast.Load())
+                if isinstance(n.ctx, ast.Load):
+                    return view._expand_name(n.id, busy)
+                return n
+        return T().visit(copy.deepcopy(node))
+
+    def text(self, node):
+        k = id(node)
+        if k not in self._texts:
+            self._texts[k] = (node, ast.unparse(self._expand(node)).replace(" ", "").replace("\n", ""))
+        return self._texts[k][1]
+
+    def name_text(self, name):
+        return ast.unparse(self._expand_name(name, frozenset())).replace(" ", "").replace("\n", "")
+
+    # ---- whole-body dump
+    def dump(self):
+        ren = {nm: f"v{i}" for i, nm in enumerate(self.order) if nm not in self.params}
+
+        class R(ast.NodeTransformer):
+            def __init__(self):
+                self.lam = {}
+
+            def visit_Lambda(self, n):
+                old = dict(self.lam)
+                for i, x in enumerate(n.args.args):
+                    self.lam[x.arg] = f"_a{i}"
+                    x.arg = f"_a{i}"
+                n.body = self.visit(n.body)
+                self.lam = old
+                return n
+
+            def visit_Name(self, n):
+                if n.id in self.lam:
+                    n.id = self.lam[n.id]
+                elif n.id in ren:
+                    n.id = ren[n.id]
+                return n
+        lines = []
+
+        def expr(e):
+            return ast.unparse(e).replace(" ", "").replace("\n", "")
+
+        def rec(stmts, depth):
+            for st in stmts:
+                if isinstance(st, ast.Expr) and isinstance(st.value, ast.Constant) and isinstance(st.value.value, str):
+                    continue  # docstring / string statement
+                head = type(st).__name__
+                pad = "." * depth
+                if isinstance(st, (ast.If, ast.While)):
+                    lines.append(f"{pad}{head} {expr(st.test)}")
+                    rec(st.body, depth + 1)
+                    if st.orelse:
+                        lines.append(f"{pad}Else")
+                        rec(st.orelse, depth + 1)
+                elif isinstance(st, ast.For):
+                    lines.append(f"{pad}For {expr(st.target)} in {expr(st.iter)}")
+                    rec(st.body, depth + 1)
+                    if st.orelse:
+                        lines.append(f"{pad}Else")
+                        rec(st.orelse, depth + 1)
+                elif isinstance(st, ast.With):
+                    lines.append(f"{pad}With " + ",".join(expr(i.context_expr) + ("as" + expr(i.optional_vars) if i.optional_vars is not None else "") for i in st.items))
+                    rec(st.body, depth + 1)
+                elif isinstance(st, ast.Try):
+                    lines.append(f"{pad}Try")
+                    rec(st.body, depth + 1)
+                    for h in st.handlers:
+                        lines.append(f"{pad}Except {expr(h.type) if h.type is not None else ''}")
+                        rec(h.body, depth + 1)
+                    if st.orelse:
+                        lines.append(f"{pad}Else")
+                        rec(st.orelse, depth + 1)
+                    if st.finalbody:
+                        lines.append(f"{pad}Finally")
+                        rec(st.finalbody, depth + 1)
+                elif isinstance(st, (ast.FunctionDef, ast.ClassDef)):
+                    lines.append(f"{pad}{head} {st.name}")
+                    rec(st.body, depth + 1)
+                else:
+                    lines.append(f"{pad}{head} {expr(st)}")
+        body = [R().visit(copy.deepcopy(st)) for st in self.fn.body]
+        sig = ast.unparse(self.fn.args).replace(" ", "")
+        lines.append(f"Def ({sig})")
+        rec(body, 1)
+        return lines
+
+
+def _digest(lines):
+    return hashlib.sha256("\n".join(lines).encode()).hexdigest()[:16]
+
+
+def _defaults(fn):
+    """documented signature: list of (parameter, default literal as source text) for parameters that have a default"""
+    a = fn.args
+    pos = a.posonlyargs + a.args
+    out = []
+    for p, dflt in zip(pos[len(pos) - len(a.defaults):], a.defaults):
+        out.append((p.arg, ast.unparse(dflt).replace('"', "'")))
+    for p, dflt in zip(a.kwonlyargs, a.kw_defaults):
+        if dflt is not None:
+            out.append((p.arg, ast.unparse(dflt).replace('"', "'")))
+    return out
+
+
+# documented values (what the statement and the docstrings say); used as fall-back when an anchor is missing so that a missing
+# anchor never changes the behaviour of the model silently (the obligation `anchors_ok` is broken in that case anyway)
+DOC = dict(dist_cmp="lt", thr="gt", scmp="le", sort=[True, False], srt=True, coords=[["x", "y", "z"], ["shift_x", "shift_y", "shift_z"]],
+           ppos=[("x", 0, 1), ("y", 1, 1), ("z", 2, 1)], aidx=[[0, 1, 2], True], acols=[("phi", 0), ("theta", 1), ("psi", 2)],
+           perm=[0, 2, 1], filen=[["phi", "psi", "theta"], ["phi", "theta", "psi"], ["phi", "theta", "psi"]], ball="particle_diameter",
+           clean_defaults=[("metric_id", "'score'"), ("keep_greater", "True"), ("dist_mask", "None")],
+           subset_defaults=[("feature_id", "'tomo_id'"), ("return_df", "False"), ("reset_index", "True")],
+           peak_defaults=[("object_id", "None"), ("scores_threshold", "None"), ("sigma_threshold", "None"), ("cluster_size", "None"),
+                          ("n_particles", "None"), ("output_path", "None"), ("output_type", "'emmotl'"), ("angles_order", "'zxz'"),
+                          ("symmetry", "'c1'"), ("angles_numbering", "0"), ("tomo_mask", "None")],
+           load_defaults=[("angles_order", "'zxz'")])
+
+
 def translate(src):
     M, G, T, I = "cryocat/cryomotl.py", "cryocat/geom.py", "cryocat/tmana.py", "cryocat/ioutils.py"
     n = core.norm_expr
     Missing = core.AnchorMissing
+    views = {}
 
-    def first(fn, pred, what):
-        for x in ast.walk(fn):
+    def view(rel, qual):
+        if (rel, qual) not in views:
+            views[(rel, qual)] = _View(src.find(rel, qual))
+        return views[(rel, qual)]
+
+    def first(V, pred, what):
+        for x in ast.walk(V.fn):
             if pred(x):
                 return x
         raise Missing(what)
 
-    def assign_to(fn, name, what=None):
-        return [x for x in ast.walk(fn) if isinstance(x, ast.Assign) and len(x.targets) == 1 and n(x.targets[0]) == name]
+    def is_false(node):
+        return isinstance(node, ast.Constant) and node.value is False
 
-    # ---- Motl.clean_by_distance
-    def clean_fn():
-        return src.find(M, "Motl.clean_by_distance")
+    # ---- Motl.clean_by_distance -------------------------------------------------------------------------------------
+    SUB = "self.get_motl_subset(EACH(np.unique(self.get_feature(feature_id))),feature_id=feature_id,reset_index=True)"
+    POS = SUB + ".get_coordinates()"
+    SCORES = SUB + ".df[metric_id].values"
+    ORDER = f"ALT(np.argsort({SCORES})[::-1],np.argsort({SCORES}))"
+    J = f"EACH({ORDER})"
+    DIST = f"geom.point_pairwise_dist({POS}[{J},:],{POS})"
+    KEEP = f"np.ones(({SUB}.df.shape[0],),dtype=bool)"
+
+    def CV():
+        return view(M, "Motl.clean_by_distance")
+
+    def dist_compare():
+        V = CV()
+        return first(V, lambda x: isinstance(x, ast.Compare) and len(x.ops) == 1 and V.text(x.comparators[0]) == "distance_in_voxels"
+                     and V.text(x.left).startswith("geom.point_pairwise_dist("), "clean_by_distance: `<pairwise distance> <op> <distance_in_voxels>`")
 
     def a_dist_cmp():
-        c = first(clean_fn(), lambda x: isinstance(x, ast.Compare) and n(x.left) == "dist" and len(x.ops) == 1 and n(x.comparators[0]) == "d_cut",
-                  "clean_by_distance: `dist <op> d_cut`")
-        return _cmp(c)
+        return _cmp(dist_compare())
 
     def a_self():
-        a = assign_to(clean_fn(), "d_cut_idx[j]")
-        if not a:
-            return False
-        return n(a[0].value) == "False"
+        V = CV()
+        c = V.text(dist_compare())
+        for x in ast.walk(V.fn):
+            if isinstance(x, ast.Assign) and len(x.targets) == 1 and isinstance(x.targets[0], ast.Subscript) and is_false(x.value):
+                t = x.targets[0]
+                if V.text(t.slice) == J and c in V.text(t.value):
+                    return True
+        return False
 
     def a_sort():
-        iff = first(clean_fn(), lambda x: isinstance(x, ast.If) and n(x.test) == "keep_greater", "clean_by_distance: `if keep_greater:`")
+        V = CV()
+        iff = first(V, lambda x: isinstance(x, ast.If) and V.text(x.test) == "keep_greater", "clean_by_distance: `if keep_greater:`")
 
         def direction(body):
             for st in body:
-                if isinstance(st, ast.Assign) and n(st.targets[0]) == "sort_idx":
-                    v = n(st.value)
-                    if v == "np.argsort(temp_scores)[::-1]":
+                if isinstance(st, ast.Assign) and len(st.targets) == 1 and isinstance(st.targets[0], ast.Name) and V.name_text(st.targets[0].id) == ORDER:
+                    v = V.text(st.value)
+                    if v == f"np.argsort({SCORES})[::-1]":
                         return True
-                    if v == "np.argsort(temp_scores)":
+                    if v == f"np.argsort({SCORES})":
                         return False
-                    raise Missing(f"clean_by_distance: sort_idx = {v}")
-            raise Missing("clean_by_distance: sort_idx assignment")
+                    raise Missing(f"clean_by_distance: processing order = {v[:120]}")
+            raise Missing("clean_by_distance: assignment of the processing order inside `if keep_greater`")
         return [direction(iff.body), direction(iff.orelse)]
 
     def a_groups():
-        fn = clean_fn()
-        feats = assign_to(fn, "features")
-        sub = assign_to(fn, "feature_m")
-        loop = [x for x in ast.walk(fn) if isinstance(x, ast.For) and n(x.target) == "f"]
-        if not (feats and sub and loop):
-            raise Missing("clean_by_distance: features / feature_m / for f")
-        call = sub[0].value
-        kw = {k.arg: n(k.value) for k in call.keywords} if isinstance(call, ast.Call) else {}
-        return (n(feats[0].value) == "np.unique(self.get_feature(feature_id))" and n(loop[0].iter) == "features"
-                and isinstance(call, ast.Call) and n(call.func) == "self.get_motl_subset" and n(call.args[0]) == "f"
-                and kw.get("feature_id") == "feature_id"
-                and "feature_m.df.iloc[temp_keep,:]" in n(fn) and "feature_m.df[metric_id].values" in n(fn))
+        V = CV()
+        txt = V.text(dist_compare().left)
+        loop = [x for x in ast.walk(V.fn) if isinstance(x, ast.For) and V.text(x.iter) == "np.unique(self.get_feature(feature_id))"]
+        return bool(loop) and SUB in txt
 
     def a_pos():
-        fn = clean_fn()
-        p = assign_to(fn, "pos")
-        d = assign_to(fn, "dist")
-        if not (p and d):
-            raise Missing("clean_by_distance: pos / dist")
-        return n(p[0].value) == "feature_m.get_coordinates()" and n(d[0].value) == "geom.point_pairwise_dist(pos[j,:],pos)"
+        V = CV()
+        return V.text(dist_compare().left) == DIST
+
+    def a_keep():
+        """the keep mask: starts all-True, `if keep[j]` guards the step, `keep[close] = False` removes, `iloc[keep]` selects, result stored"""
+        V = CV()
+        c = V.text(dist_compare())
+        guard = any(isinstance(x, ast.If) and V.text(x.test) == f"{KEEP}[{J}]" for x in ast.walk(V.fn))
+        removal = any(isinstance(x, ast.Assign) and len(x.targets) == 1 and isinstance(x.targets[0], ast.Subscript) and is_false(x.value)
+                      and V.text(x.targets[0].value) == KEEP and c in V.text(x.targets[0].slice) for x in ast.walk(V.fn))
+        sel = [x for x in ast.walk(V.fn) if isinstance(x, ast.Call) and n(x.func) == "pd.concat" and f"{SUB}.df.iloc[{KEEP},:]" in V.text(x)
+               and {k.arg: n(k.value) for k in x.keywords}.get("ignore_index") == "True"]
+        stored = [x for x in ast.walk(V.fn) if isinstance(x, ast.Assign) and n(x.targets[0]) == "self.df" and "pd.concat(" in V.text(x.value)]
+        if not (guard and removal and sel and stored):
+            raise Missing(f"clean_by_distance: keep mask (guard={guard}, removal={removal}, iloc-selection={bool(sel)}, self.df stored={bool(stored)})")
+        return True
 
     def a_coords():
-        fn = src.find(M, "Motl.get_coordinates")
-        iff = first(fn, lambda x: isinstance(x, ast.If) and n(x.test) == "tomo_numberisNone", "get_coordinates: `if tomo_number is None`")
+        V = view(M, "Motl.get_coordinates")
+        iff = first(V, lambda x: isinstance(x, ast.If) and n(x.test) == "tomo_numberisNone", "get_coordinates: `if tomo_number is None`")
         st = iff.body[0]
         if not (isinstance(st, ast.Assign) and isinstance(st.value, ast.BinOp) and isinstance(st.value.op, ast.Add)):
             raise Missing("get_coordinates: coord = a + b")
+        ret = [x for x in ast.walk(V.fn) if isinstance(x, ast.Return)]
+        if not ret or not isinstance(ret[-1].value, ast.Name) or ret[-1].value.id != n(st.targets[0]):
+            raise Missing("get_coordinates: the sum is what is returned")
         lists = []
         for side in (st.value.left, st.value.right):
             lit = [x for x in ast.walk(side) if isinstance(x, ast.List)]
@@ -128,50 +388,75 @@ def translate(src):
         return lists
 
     def a_norm():
-        fn = src.find(G, "point_pairwise_dist")
-        a = [x for x in assign_to(fn, "pairwise_dist") if "norm" in n(x.value)]
-        if not a:
-            raise Missing("point_pairwise_dist: norm")
-        return n(a[0].value) == "np.linalg.norm(coord_1-coord_2,axis=1)"
+        V = view(G, "point_pairwise_dist")
+        p = V.params
+        calls = [x for x in ast.walk(V.fn) if isinstance(x, ast.Call) and n(x.func) == "np.linalg.norm"]
+        if len(calls) != 1 or len(p) != 2:
+            raise Missing("point_pairwise_dist: one np.linalg.norm call over two parameters")
+        c = calls[0]
+        kw = {k.arg: n(k.value) for k in c.keywords}
+        ok = (len(c.args) == 1 and isinstance(c.args[0], ast.BinOp) and isinstance(c.args[0].op, ast.Sub) and n(c.args[0].left) == p[0]
+              and n(c.args[0].right) == p[1] and kw == {"axis": "1"})
+        return ok
 
-    # ---- tmana.scores_extract_particles
-    def ext_fn():
-        return src.find(T, "scores_extract_particles")
+    # ---- tmana.scores_extract_particles -----------------------------------------------------------------------------
+    def EV():
+        return view(T, "scores_extract_particles")
+
+    def sorted_call():
+        V = EV()
+        return first(V, lambda x: isinstance(x, ast.Call) and n(x.func) == "sorted" and any(k.arg == "key" for k in x.keywords),
+                     "scores_extract_particles: sorted(<candidates>, key=..., reverse=...)")
 
     def b_thr():
-        c = first(ext_fn(), lambda x: isinstance(x, ast.Call) and n(x.func) == "np.where" and x.args and isinstance(x.args[0], ast.Compare)
-                  and n(x.args[0].left) == "scores_map" and n(x.args[0].comparators[0]) == "threshold", "scores_extract_particles: np.where(scores_map <op> threshold)")
+        V = EV()
+        c = first(V, lambda x: isinstance(x, ast.Call) and n(x.func) == "np.where" and x.args and isinstance(x.args[0], ast.Compare)
+                  and len(x.args[0].ops) == 1 and "cryomap.read(scores_map)" in V.text(x.args[0].left)
+                  and V.text(x.args[0].comparators[0]).startswith("ALT(scores_threshold,"),
+                  "scores_extract_particles: np.where(<scores map> <op> <threshold>)")
         return _cmp(c.args[0])
 
     def b_ball():
-        c = first(ext_fn(), lambda x: isinstance(x, ast.Call) and isinstance(x.func, ast.Attribute) and x.func.attr == "query_ball_point",
+        V = EV()
+        c = first(V, lambda x: isinstance(x, ast.Call) and isinstance(x.func, ast.Attribute) and x.func.attr == "query_ball_point",
                   "scores_extract_particles: query_ball_point")
-        if n(c.func.value) != "tree" or n(c.args[0]) != "coord" or "KDTree([coordforcoord,scoreinscored_coords])" not in n(ext_fn()):
-            raise Missing("scores_extract_particles: tree.query_ball_point(coord, r)")
-        return n(c.args[1])
+        S_ = V.text(sorted_call())
+        if not V.text(c.func.value).startswith("KDTree([") or len(c.args) != 2 or c.keywords or V.text(c.args[0]) != f"EACH({S_})[0]":
+            raise Missing("scores_extract_particles: KDTree([...]).query_ball_point(<candidate position>, r)")
+        return V.text(c.args[1])
 
     def b_score_cmp():
-        c = first(ext_fn(), lambda x: isinstance(x, ast.Compare) and n(x.left) == "coord_to_score[nearby_coord_tuple]" and n(x.comparators[0]) == "score",
-                  "scores_extract_particles: coord_to_score[...] <op> score")
+        V = EV()
+        S_ = V.text(sorted_call())
+        c = first(V, lambda x: isinstance(x, ast.Compare) and len(x.ops) == 1 and V.text(x.comparators[0]) == f"EACH({S_})[1]"
+                  and isinstance(x.left, ast.Subscript) and isinstance(x.ops[0], (ast.Lt, ast.LtE, ast.Gt, ast.GtE)),
+                  "scores_extract_particles: <score of a ball member> <op> <score of the processed candidate>")
         return _cmp(c)
 
     def b_sorted():
-        a = assign_to(ext_fn(), "scored_coords")
-        if not a or not isinstance(a[0].value, ast.Call) or n(a[0].value.func) != "sorted":
-            raise Missing("scores_extract_particles: scored_coords = sorted(...)")
-        kw = {k.arg: n(k.value) for k in a[0].value.keywords}
-        if kw.get("key") != "lambdax:x[1]":
-            raise Missing("scores_extract_particles: sorted key")
+        V = EV()
+        c = sorted_call()
+        kw = {k.arg: V.text(k.value) for k in c.keywords}
+        if kw.get("key") != "LAMBDA(1,_a0[1])":
+            raise Missing("scores_extract_particles: sorted key is the score (second tuple member)")
         return kw.get("reverse", "False") == "True"
 
     def fill_dict():
-        c = first(ext_fn(), lambda x: isinstance(x, ast.Call) and n(x.func) == "motl.fill" and x.args and isinstance(x.args[0], ast.Dict),
-                  "scores_extract_particles: motl.fill({...})")
+        V = EV()
+        c = first(V, lambda x: isinstance(x, ast.Call) and isinstance(x.func, ast.Attribute) and x.func.attr == "fill" and x.args
+                  and isinstance(x.args[0], ast.Dict) and V.text(x.func.value) == "cryomotl.Motl()", "scores_extract_particles: Motl().fill({...})")
         return {ast.literal_eval(k): v for k, v in zip(c.args[0].keys, c.args[0].values)}
+
+    def col_of(node, what):
+        """`R[:, k]` -> (name of R, k)"""
+        if not (isinstance(node, ast.Subscript) and isinstance(node.value, ast.Name) and isinstance(node.slice, ast.Tuple) and len(node.slice.elts) == 2
+                and n(node.slice.elts[0]) == ":" and isinstance(node.slice.elts[1], ast.Constant) and isinstance(node.slice.elts[1].value, int)):
+            raise Missing(f"{what}: not of the form R[:, k]: {n(node)[:60]}")
+        return node.value.id, node.slice.elts[1].value
 
     def b_pos():
         d = fill_dict()
-        out = []
+        out, rv = [], set()
         for name in ("x", "y", "z"):
             v = d.get(name)
             if v is None:
@@ -180,96 +465,125 @@ def translate(src):
             if isinstance(v, ast.BinOp) and isinstance(v.op, (ast.Add, ast.Sub)) and isinstance(v.right, ast.Constant) and isinstance(v.right.value, int):
                 off = v.right.value if isinstance(v.op, ast.Add) else -v.right.value
                 v = v.left
-            txt = n(v)
-            if not (txt.startswith("rpos[:,") and txt.endswith("]") and txt[7:-1].isdigit()) or off < 0:
-                raise Missing(f"motl.fill: {name} = {txt}")
-            out.append((name, int(txt[7:-1]), off))
+            r, k = col_of(v, f"motl.fill: {name}")
+            rv.add(r)
+            if off < 0:
+                raise Missing(f"motl.fill: {name} offset {off}")
+            out.append((name, k, off))
+        if len(rv) != 1:
+            raise Missing("motl.fill: x, y, z come from different arrays")
         return out
 
+    def angidx_node():
+        V = EV()
+        return first(V, lambda x: isinstance(x, ast.BinOp) and V.text(x.right) == "angles_numbering" and isinstance(x.left, ast.Call)
+                     and isinstance(x.left.func, ast.Attribute) and x.left.func.attr == "astype", "scores_extract_particles: <angle map entries>.astype(int) <op> angles_numbering")
+
     def b_angidx():
-        a = assign_to(ext_fn(), "ang_idx")
-        if not a:
-            raise Missing("scores_extract_particles: ang_idx")
-        v = a[0].value
-        if not (isinstance(v, ast.BinOp) and n(v.right) == "angles_numbering"):
-            raise Missing("scores_extract_particles: ang_idx = ... angles_numbering")
-        left = n(v.left)
-        pre, post = "angles_map[", "].astype(int)"
-        if not (left.startswith(pre) and left.endswith(post)):
-            raise Missing("scores_extract_particles: angles_map[...].astype(int)")
-        parts = left[len(pre):-len(post)].split("],")
-        cols = []
-        for p in parts:
-            p = p if p.endswith("]") else p + "]"
-            if not (p.startswith("rpos[:,") and p[7:-1].isdigit()):
-                raise Missing("scores_extract_particles: angles_map index " + p)
-            cols.append(int(p[7:-1]))
+        V = EV()
+        v = angidx_node()
+        call = v.left
+        if n(call.args[0] if call.args else ast.Constant(value=None)) != "int" or not isinstance(call.func.value, ast.Subscript):
+            raise Missing("scores_extract_particles: astype(int)")
+        sub = call.func.value
+        if V.text(sub.value) != "cryomap.read(angles_map)" or not isinstance(sub.slice, ast.Tuple):
+            raise Missing("scores_extract_particles: angles_map[R[:,0], R[:,1], R[:,2]]")
+        cols, rv = [], set()
+        for e in sub.slice.elts:
+            r, k = col_of(e, "scores_extract_particles: angle-map index")
+            rv.add(r)
+            cols.append(k)
+        d = fill_dict()
+        xv = d["x"].left if isinstance(d.get("x"), ast.BinOp) else d.get("x")
+        if len(rv) != 1 or col_of(xv, "motl.fill: x")[0] not in rv:
+            raise Missing("scores_extract_particles: the angle map is not indexed with the peak positions that are filled in")
         return [cols, isinstance(v.op, ast.Sub)]
 
     def b_angcols():
+        V = EV()
+        d = fill_dict()
+        idx_txt = V.text(angidx_node())
         out = []
         for name in ("phi", "theta", "psi"):
-            a = [x for x in assign_to(ext_fn(), name) if n(x.value).startswith("anglist[ang_idx,")]
-            if not a:
-                raise Missing(f"scores_extract_particles: {name} = anglist[ang_idx, k]")
-            k = n(a[0].value)[len("anglist[ang_idx,"):-1]
-            if not k.isdigit():
-                raise Missing(f"scores_extract_particles: {name} column {k}")
-            out.append((name, int(k)))
+            v = d.get(name)
+            if not isinstance(v, ast.Name) or v.id not in V.binds:
+                raise Missing(f"motl.fill: {name} is not a local array")
+            b0 = V.binds[v.id][0]
+            if not (isinstance(b0, ast.Subscript) and isinstance(b0.slice, ast.Tuple) and len(b0.slice.elts) == 2 and isinstance(b0.slice.elts[1], ast.Constant)
+                    and V.text(b0.value) == "ioutils.rot_angles_load(angles_list,angles_order=angles_order)" and V.text(b0.slice.elts[0]) == idx_txt):
+                raise Missing(f"scores_extract_particles: {name} = <loaded list>[<angle index>, k]")
+            out.append((name, int(b0.slice.elts[1].value)))
         return out
 
     def b_direct():
+        V = EV()
         d = fill_dict()
-        fn = n(ext_fn())
-        return (all(n(d[k]) == k for k in ("phi", "theta", "psi") if k in d) and all(k in d for k in ("phi", "theta", "psi", "score"))
-                and n(d["score"]) == "filtered_scores"
-                and "anglist=ioutils.rot_angles_load(angles_list,angles_order=angles_order)" in fn
-                and "rpos=filtered_coords[filtered_hit_idx]" in fn
-                and "filtered_coords.append((coord,score))" in fn)
+        if not all(k in d for k in ("phi", "theta", "psi", "score", "x", "y", "z")):
+            return False
+        sc = d["score"]
+        # the score column is the second member of the kept (position, score) pairs; the positions are the first member
+        return (isinstance(sc, ast.Name) and any("zip(*" in V.text(b) and V.text(b).endswith("[1]") for b in V.binds.get(sc.id, []))
+                and any(isinstance(x, ast.Call) and isinstance(x.func, ast.Attribute) and x.func.attr == "append" and x.args
+                        and isinstance(x.args[0], ast.Tuple) and [V.text(e) for e in x.args[0].elts] == [f"EACH({V.text(sorted_call())})[0]", f"EACH({V.text(sorted_call())})[1]"]
+                        for x in ast.walk(V.fn)))
 
-    # ---- ioutils.rot_angles_load
-    def load_fn():
-        return src.find(I, "rot_angles_load")
+    # ---- ioutils.rot_angles_load ------------------------------------------------------------------------------------
+    def LV():
+        return view(I, "rot_angles_load")
 
     def branch(test_txt):
-        return first(load_fn(), lambda x: isinstance(x, ast.If) and n(x.test) == test_txt, f"rot_angles_load: `if {test_txt}`")
+        V = LV()
+        return first(V, lambda x: isinstance(x, ast.If) and n(x.test) == test_txt, f"rot_angles_load: `if {test_txt}`")
+
+    ZZX = ("angles_order=='zzx'", 'angles_order=="zzx"')
 
     def c_perm():
         br = branch("isinstance(input_angles,np.ndarray)")
-        if not any(isinstance(st, ast.Assign) and n(st.targets[0]) == "angles" and n(st.value) in ("input_angles.copy()", "input_angles") for st in br.body):
-            raise Missing("rot_angles_load: angles = input_angles.copy()")
-        zz = [x for st in br.body for x in ast.walk(st) if isinstance(x, ast.If) and n(x.test) in ("angles_order=='zzx'", 'angles_order=="zzx"')]
+        cp = [st for st in br.body if isinstance(st, ast.Assign) and isinstance(st.targets[0], ast.Name) and n(st.value) in ("input_angles.copy()", "input_angles")]
+        if not cp:
+            raise Missing("rot_angles_load: <angles> = input_angles.copy()")
+        var = cp[0].targets[0].id
+        zz = [x for st in br.body for x in ast.walk(st) if isinstance(x, ast.If) and n(x.test) in ZZX]
         if not zz:
             return [0, 1, 2]  # the array branch does not reorder: this IS what the source does
-        a = [st for st in zz[0].body if isinstance(st, ast.Assign) and n(st.targets[0]) == "angles"]
-        if not a or not n(a[0].value).startswith("angles[:,[") or zz[0].orelse:
-            raise Missing("rot_angles_load: angles = angles[:, [..]]")
-        perm = ast.literal_eval(n(a[0].value)[len("angles[:,"):-1])
+        a = [st for st in zz[0].body if isinstance(st, ast.Assign) and n(st.targets[0]) == var]
+        if not a or not n(a[0].value).startswith(var + "[:,[") or zz[0].orelse:
+            raise Missing("rot_angles_load: <angles> = <angles>[:, [..]]")
+        perm = ast.literal_eval(n(a[0].value)[len(var + "[:,"):-1])
         if not (isinstance(perm, list) and all(isinstance(k, int) and k >= 0 for k in perm)):
             raise Missing("rot_angles_load: permutation literal")
         return perm
 
     def c_file():
         br = branch("isinstance(input_angles,str)")
-        zz = [x for st in br.body for x in ast.walk(st) if isinstance(x, ast.If) and n(x.test) in ("angles_order=='zzx'", 'angles_order=="zzx"')]
+        rd = [st for st in br.body if isinstance(st, ast.Assign) and isinstance(st.targets[0], ast.Name) and n(st.value).startswith("pd.read_csv(input_angles,")]
+        if not rd or {k.arg: n(k.value) for k in rd[0].value.keywords} != {"header": "None"}:
+            raise Missing("rot_angles_load: <angles> = pd.read_csv(input_angles, header=None)")
+        var = rd[0].targets[0].id
+        zz = [x for st in br.body for x in ast.walk(st) if isinstance(x, ast.If) and n(x.test) in ZZX]
         if not zz:
             raise Missing("rot_angles_load: file branch zzx")
 
         def names(body):
-            a = [st for st in body if isinstance(st, ast.Assign) and n(st.targets[0]) == "angles.columns"]
+            a = [st for st in body if isinstance(st, ast.Assign) and n(st.targets[0]) == var + ".columns"]
             if not a:
-                raise Missing("rot_angles_load: angles.columns = [...]")
+                raise Missing("rot_angles_load: <angles>.columns = [...]")
             return ast.literal_eval(a[0].value)
-        sel = [st for st in br.body if isinstance(st, ast.Assign) and n(st.targets[0]) == "angles" and n(st.value).startswith("angles.loc[:,[")]
+        sel = [st for st in br.body if isinstance(st, ast.Assign) and n(st.targets[0]) == var and n(st.value).startswith(var + ".loc[:,[")]
         if not sel or not n(sel[0].value).endswith("].to_numpy()"):
-            raise Missing("rot_angles_load: angles.loc[:, [...]].to_numpy()")
-        return [names(zz[0].body), names(zz[0].orelse), ast.literal_eval(n(sel[0].value)[len("angles.loc[:,"):-len(".to_numpy()") - 1])]
+            raise Missing("rot_angles_load: <angles>.loc[:, [...]].to_numpy()")
+        return [names(zz[0].body), names(zz[0].orelse), ast.literal_eval(n(sel[0].value)[len(var + ".loc[:,"):-len(".to_numpy()") - 1])]
+
+    # ---- signatures and whole bodies --------------------------------------------------------------------------------
+    BODIES = [("cleanByDistance", M, "Motl.clean_by_distance"), ("getMotlSubset", M, "Motl.get_motl_subset"), ("getCoordinates", M, "Motl.get_coordinates"),
+              ("pointPairwiseDist", G, "point_pairwise_dist"), ("scoresExtractParticles", T, "scores_extract_particles"), ("rotAnglesLoad", I, "rot_angles_load")]
 
     dist_cmp = src.anchor("clean_by_distance:dist<d_cut", a_dist_cmp)
     self_ex = src.anchor("clean_by_distance:d_cut_idx[j]=False", a_self)
     sort = src.anchor("clean_by_distance:argsort-directions", a_sort)
     groups = src.anchor("clean_by_distance:group-loop-by-feature_id", a_groups)
     pos = src.anchor("clean_by_distance:pos-of-group/point_pairwise_dist", a_pos)
+    keep = src.anchor("clean_by_distance:keep-mask-guard/removal/iloc-selection", a_keep)
     coords = src.anchor("get_coordinates:xyz+shifts", a_coords)
     norm = src.anchor("point_pairwise_dist:euclidean-norm", a_norm)
     thr = src.anchor("scores_extract_particles:scores_map>threshold", b_thr)
@@ -282,52 +596,78 @@ def translate(src):
     direct = src.anchor("scores_extract_particles:fill-direct", b_direct)
     perm = src.anchor("rot_angles_load:array-zzx-permutation", c_perm)
     filen = src.anchor("rot_angles_load:file-zzx-column-names", c_file)
+    d_clean = src.anchor("signature:clean_by_distance-defaults", lambda: [list(t) for t in _defaults(src.find(M, "Motl.clean_by_distance"))])
+    d_subset = src.anchor("signature:get_motl_subset-defaults", lambda: [list(t) for t in _defaults(src.find(M, "Motl.get_motl_subset"))])
+    d_peaks = src.anchor("signature:scores_extract_particles-defaults", lambda: [list(t) for t in _defaults(src.find(T, "scores_extract_particles"))])
+    d_load = src.anchor("signature:rot_angles_load-defaults", lambda: [list(t) for t in _defaults(src.find(I, "rot_angles_load"))])
+    dumps = {}
+    for lean_name, rel, qual in BODIES:
+        dumps[lean_name] = src.anchor(f"body:{qual}", lambda rel=rel, qual=qual: view(rel, qual).dump())
 
     def b(v):
         return "true" if v else "false"
 
-    def cmp(v):
-        return "." + (v or "other")
+    def cmp(v, doc):
+        return "." + (v or doc)
 
-    sort = sort or [True, False]
-    coords = coords or [["x", "y", "z"], ["shift_x", "shift_y", "shift_z"]]
-    ppos = ppos or [("x", 0, 1), ("y", 1, 1), ("z", 2, 1)]
-    aidx = aidx or [[0, 1, 2], True]
-    acols = acols or [("phi", 0), ("theta", 1), ("psi", 2)]
-    perm = perm if perm is not None else [0, 2, 1]
-    filen = filen or [["phi", "psi", "theta"], ["phi", "theta", "psi"], ["phi", "theta", "psi"]]
+    def dflt(v, doc):
+        return "[" + ", ".join(f"({core.lean_str(a)}, {core.lean_str(c)})" for a, c in (v if v is not None else doc)) + "]"
+
+    # a missing anchor falls back to the DOCUMENTED value (the model keeps its documented behaviour; `anchorsOk` is false)
+    sort = sort or DOC["sort"]
+    coords = coords or DOC["coords"]
+    ppos = ppos or DOC["ppos"]
+    aidx = aidx or DOC["aidx"]
+    acols = acols or DOC["acols"]
+    perm = perm if perm is not None else DOC["perm"]
+    filen = filen or DOC["filen"]
+    srt = DOC["srt"] if srt is None else srt
     nat_list = lambda xs: "[" + ", ".join(str(int(x)) for x in xs) + "]"
+    body_defs, body_comments = [], []
+    for lean_name, rel, qual in BODIES:
+        lines = dumps[lean_name]
+        body_defs.append(f"def {lean_name}Body : String × Nat := ({core.lean_str(_digest(lines) if lines else '?')}, {len(lines) if lines else 0})")
+        body_comments.append(f"/- {rel}:{qual}, locals numbered in order of first binding\n" + "\n".join(l.replace("-/", "- /").replace("/-", "/ -") for l in (lines or ["<missing>"])) + "\n-/")
     return f"""-- GENERATED by harness/props/c07.py from {M}, {G}, {T}, {I}; do not edit
 namespace CryoCat.Gen.C07
 inductive Cmp | lt | le | gt | ge | other
 deriving DecidableEq, Repr
 def anchorsOk : Bool := {b(src.ok)}
 -- Motl.clean_by_distance
-def cleanDistCmp : Cmp := {cmp(dist_cmp)}
-def cleanSelfExcluded : Bool := {b(self_ex)}
+def cleanDistCmp : Cmp := {cmp(dist_cmp, DOC["dist_cmp"])}
+def cleanSelfExcluded : Bool := {b(True if self_ex is None else self_ex)}
 def cleanSortDescGreater : Bool := {b(sort[0])}
 def cleanSortDescLower : Bool := {b(sort[1])}
-def cleanGroupsByFeature : Bool := {b(groups)}
-def cleanPosFromGroup : Bool := {b(pos)}
+def cleanGroupsByFeature : Bool := {b(True if groups is None else groups)}
+def cleanPosFromGroup : Bool := {b(True if pos is None else pos)}
+def cleanKeepMask : Bool := {b(True if keep is None else keep)}
 def coordColumns : List String := {core.lean_str_list(coords[0])}
 def shiftColumns : List String := {core.lean_str_list(coords[1])}
-def distIsEuclidNorm : Bool := {b(norm)}
+def distIsEuclidNorm : Bool := {b(True if norm is None else norm)}
 -- tmana.scores_extract_particles
-def peakThrCmp : Cmp := {cmp(thr)}
-def peakBallRadius : String := {core.lean_str(ball or "?")}
-def peakScoreCmp : Cmp := {cmp(scmp)}
+def peakThrCmp : Cmp := {cmp(thr, DOC["thr"])}
+def peakBallRadius : String := {core.lean_str(ball or DOC["ball"])}
+def peakScoreCmp : Cmp := {cmp(scmp, DOC["scmp"])}
 def peakSortDesc : Bool := {b(srt)}
 def peakPosFill : List (String × Nat × Nat) := [{", ".join(f"({core.lean_str(a)}, {c}, {o})" for a, c, o in ppos)}]
 def peakAngIdxCols : List Nat := {nat_list(aidx[0])}
 def peakAngIdxSubtractsNumbering : Bool := {b(aidx[1])}
 def peakAngleCols : List (String × Nat) := [{", ".join(f"({core.lean_str(a)}, {c})" for a, c in acols)}]
-def peakFillDirect : Bool := {b(direct)}
+def peakFillDirect : Bool := {b(True if direct is None else direct)}
 -- ioutils.rot_angles_load
 def zzxArrayPerm : List Nat := {nat_list(perm)}
 def zzxFileNames : List String := {core.lean_str_list(filen[0])}
 def zxzFileNames : List String := {core.lean_str_list(filen[1])}
 def fileSelect : List String := {core.lean_str_list(filen[2])}
+-- signature defaults (parameter, default literal)
+def cleanDefaults : List (String × String) := {dflt(d_clean, DOC["clean_defaults"])}
+def subsetDefaults : List (String × String) := {dflt(d_subset, DOC["subset_defaults"])}
+def peakDefaults : List (String × String) := {dflt(d_peaks, DOC["peak_defaults"])}
+def loadDefaults : List (String × String) := {dflt(d_load, DOC["load_defaults"])}
+-- whole bodies: (sha-256 prefix of the normalised dump below, number of dump lines)
+{chr(10).join(body_defs)}
 end CryoCat.Gen.C07
+{chr(10).join(body_comments)}
 """
 
 
@@ -392,6 +732,55 @@ def _has_tie(pos, grp, d):
     return False
 
 
+def _positions(rows):
+    return [[r[CI[c]] + r[CI[sc]] for c, sc in (("x", "shift_x"), ("y", "shift_y"), ("z", "shift_z"))] for r in rows]
+
+
+def _rows_tie(rows, feature, d):
+    fi = CI[feature]
+    return _has_tie(_positions(rows), [r[fi] for r in rows], d)
+
+
+def _group_values(rng, ngroups):
+    """group ids (numerators at scale S) and the label of the stream they come from"""
+    r = rng.random()
+    if ngroups > 1 and r < 0.25:
+        # LARGE ADJACENT ids (date-style tomogram numbers, object ids in the 1e5..1e9 range): equal under any relative tolerance
+        base = rng.choice([10 ** 5, 230415, 10 ** 6 - 1, 10 ** 7 + 13, 123456789, 10 ** 9 - 3]) + rng.randint(0, 50)
+        vals = [(base + j) * S for j in range(ngroups)]
+        rng.shuffle(vals)
+        return vals, "large-adjacent"
+    if ngroups > 1 and r < 0.33:
+        # adjacent values of the 2^-10 grid at magnitude 300..5000 (fractional feature values, e.g. geom fields)
+        base = rng.randint(300, 5000) * S + rng.randint(0, S - 1)
+        vals = [base + j for j in range(ngroups)]
+        rng.shuffle(vals)
+        return vals, "grid-adjacent"
+    gvals = rng.sample([1, 2, 3, 4, 5, 7, 10, 11, 100, 0, -1] + ([S // 2 * 3] if rng.random() < 0.2 else []), ngroups)
+    return [g * S if abs(g) < 200 else g for g in gvals], "small"
+
+
+def _index(rng, n):
+    """row labels of the caller's DataFrame"""
+    r = rng.random()
+    if r < 0.6 or n < 2:
+        return None, "range"
+    if r < 0.78:  # two lists put together with pd.concat (no ignore_index): every label twice
+        half = max(1, (n + 1) // 2)
+        return [i % half for i in range(n)], "dup-concat"
+    if r < 0.88:
+        p = list(range(n))
+        rng.shuffle(p)
+        return p, "permuted"
+    if r < 0.95:
+        return sorted(rng.sample(range(0, 5 * n + 5), n)), "sparse"
+    return [7] * n, "all-equal"
+
+
+def _distinct_scores(rng, n):
+    return [s * 16 for s in rng.sample(range(-n * 8, n * 8 + 8), n)]
+
+
 def gen_clean(rng, tier):
     big = {"quick": 0.04, "thorough": 0.25, "search": 0.0}[tier]
     r = rng.random()
@@ -406,8 +795,7 @@ def gen_clean(rng, tier):
     d = rng.choice([S, S + S // 2, 2 * S, 3 * S + S // 4, 10 * S, rng.randint(S // 4 + 1, 24 * S)])
     ngroups = rng.choice([1, 2, 2, 3, 4])
     feature = rng.choice(FEATURES)
-    gvals = rng.sample([1, 2, 3, 4, 5, 7, 10, 11, 100, 0, -1] + ([S // 2 * 3] if rng.random() < 0.2 else []), ngroups)
-    gvals = [g * S if abs(g) < 200 else g for g in gvals]
+    gvals, gkind = _group_values(rng, ngroups)
     copies = ngroups > 1 and rng.random() < 0.3
     if copies:  # the same arrangement in every group (different scores): adversarial for cross-group leakage
         m = max(1, n // ngroups)
@@ -428,10 +816,16 @@ def gen_clean(rng, tier):
         else:
             grp = [gvals[i % ngroups] for i in range(len(pos))]
     n = len(pos)
-    for _ in range(50):
-        if not _has_tie(pos, grp, d):
-            break
-        d += 1
+    planted = n >= 2 and rng.random() < 0.03
+    if planted:  # a pair of one group at distance exactly d (outside the quantifier; judged under both readings)
+        i, j = rng.sample(range(n), 2)
+        pos[j] = [pos[i][0], pos[i][1] + d, pos[i][2]]
+        grp[j] = grp[i]
+    else:
+        for _ in range(50):
+            if not _has_tie(pos, grp, d):
+                break
+            d += 1
     sk = rng.random()
     if sk < 0.15:
         scores = [rng.randint(0, max(1, n // 3)) * 64 for _ in range(n)]
@@ -442,8 +836,7 @@ def gen_clean(rng, tier):
         if len(set(scores)) < n:
             skind = "position-tied"
     else:
-        scores = rng.sample(range(-n * 8, n * 8 + 8), n)
-        scores = [s * rng.choice([1, 1, 16]) if False else s * 16 for s in scores]
+        scores = _distinct_scores(rng, n)
         skind = "distinct"
     rows = []
     shifted = rng.random() < 0.5
@@ -461,14 +854,38 @@ def gen_clean(rng, tier):
             row[CI[c]] = pos[i][a] - sh
             row[CI[sc]] = sh
         rows.append(row)
-    return dict(kind="clean", d=d, keep_greater=rng.random() < 0.6, feature=feature, rows=rows, layout=layout, scores=skind)
+    index, ikind = _index(rng, n)
+    case = dict(kind="clean", d=d, keep_greater=rng.random() < 0.6, feature=feature, rows=rows, layout=layout, scores=skind,
+                groups=gkind, index=index, index_kind=ikind, omit=rng.random() < 0.3, planted_tie=planted, then=[])
+    if tier != "search" and rng.random() < 0.15:  # further calls on the same caller-owned DataFrame
+        cur = [list(r) for r in rows]
+        for _ in range(rng.choice([1, 1, 2])):
+            f2 = rng.choice(FEATURES) if rng.random() < 0.5 else feature
+            st = {}
+            if rng.random() < 0.7:
+                st["score"] = _distinct_scores(rng, n)
+            if f2 != feature or rng.random() < 0.4:
+                g2, _ = _group_values(rng, rng.choice([1, 2, 3]))
+                st[f2] = [rng.choice(g2) for _ in range(n)]
+            for col, vals in st.items():
+                for r_, v in zip(cur, vals):
+                    r_[CI[col]] = v
+            d2 = rng.choice([d, 2 * d, max(S // 4 + 1, d // 2), rng.randint(S // 4 + 1, 24 * S)])
+            for _k in range(50):
+                if not _rows_tie(cur, f2, d2):
+                    break
+                d2 += 1
+            case["then"].append(dict(d=d2, keep_greater=rng.random() < 0.5, feature=f2, set=st, omit=rng.random() < 0.3))
+    return case
 
 
 # ------------------------------------------------------------------ generators: score maps
-def gen_peaks(rng, tier):
+def gen_peaks(rng, tier, dense=False):
     lim = {"quick": 16, "thorough": 40, "search": 6}[tier]
     r = rng.random()
-    if tier == "thorough" and r < 0.06:
+    if dense:
+        dims = [rng.randint(35, 40) for _ in range(3)]
+    elif tier == "thorough" and r < 0.06:
         dims = [rng.randint(30, 40) for _ in range(3)]
     elif r < 0.25:
         dims = [rng.randint(1, min(lim, 12)) for _ in range(3)]
@@ -495,11 +912,13 @@ def gen_peaks(rng, tier):
     vals = (base * N + perm) * 2  # distinct even integers; odd thresholds fall strictly between two scores
     sscale = rng.choice([1, 16, 1024])
     sorted_vals = np.sort(vals)[::-1]
-    # threshold: keep between 1 and ~1500 voxels above it
+    # threshold: keep between 1 and ~1500 voxels above it (dense maps: 85..98 % of a large map, i.e. more than 2^15 candidates)
     kmax = min(N, {"quick": 500, "thorough": 1500, "search": 40}[tier])
     k = rng.randint(1, max(1, kmax if rng.random() < 0.3 else min(kmax, max(2, N // rng.randint(2, 30)))))
+    if dense:
+        k = int(N * rng.uniform(0.85, 0.98))
     tr = rng.random()
-    if tr < 0.04:
+    if tr < 0.04 and not dense:
         thr = int(sorted_vals[0]) + rng.choice([0, 1, 7])  # nothing above: returns None
         tkind = "above-max"
     elif tr < 0.35 and k < N:
@@ -510,7 +929,10 @@ def gen_peaks(rng, tier):
         tkind = "between"
     dd = rng.choice([1, 1, 2, 4])
     dr = rng.random()
-    if dr < 0.4:
+    if dense:
+        dd = 4
+        dn = rng.choice([6, 8, 9, 10, 12])  # 1.5 .. 3 voxels: peaks exist deep in the low-score tail
+    elif dr < 0.4:
         dn = rng.choice([1, 2, 2, 3, 5]) * dd  # integer diameters: exact ties with integer voxel distances
     elif dr < 0.8:
         dn = rng.randint(max(1, dd // 2), 3 * dd)
@@ -519,30 +941,73 @@ def gen_peaks(rng, tier):
     numbering = rng.choice([0, 1])
     L = rng.randint(1, 40)
     ascale = 4
-    anglist = []
-    for i in range(L):
-        a = rng.randint(-720, 719)
-        b = rng.randint(0, 720)
-        c = rng.randint(-720, 719)
-        while c == b:
+
+    def angle_list():
+        out = []
+        for i in range(L):
+            a = rng.randint(-720, 719)
+            b = rng.randint(0, 720)
             c = rng.randint(-720, 719)
-        anglist.append([a, b, c])
+            while c == b:
+                c = rng.randint(-720, 719)
+            out.append([a, b, c])
+        return out
+    anglist = angle_list()
+    # entries in [numbering, numbering + L): an entry BELOW the numbering points to no list row (outside the quantifier)
     angles = rs.randint(numbering, numbering + L, size=N).tolist()
-    bad = rng.random() < 0.03
+    bad = rng.random() < 0.03 and not dense
     if bad:
         for _ in range(rng.randint(1, 3)):
             angles[int(np.argmax(vals)) if rng.random() < 0.5 else rng.randrange(N)] = numbering + L + rng.randint(0, 2)
-    return dict(kind="peaks", dims=dims, scores=[int(v) for v in vals], sscale=sscale, thr=thr, dn=dn, dd=dd, angles=angles,
+    case = dict(kind="peaks", dims=dims, scores=[int(v) for v in vals], sscale=sscale, thr=thr, dn=dn, dd=dd, angles=angles,
                 anglist=anglist, ascale=ascale, numbering=numbering, order=rng.choice(["zxz", "zzx"]),
-                list_as=rng.choice(["array", "array", "csv"]), field=kind, thr_kind=tkind, bad_angle=bad)
+                list_as=rng.choice(["array", "array", "csv"]), field=kind, thr_kind=tkind, bad_angle=bad, dense=dense,
+                omit=rng.random() < 0.3, then=[])
+    if tier != "search" and not dense and not bad and rng.random() < 0.15:
+        # further calls with the SAME map / angle-map / list objects (or the same CSV path, rewritten in between)
+        for _ in range(rng.choice([1, 1, 2])):
+            k2 = rng.randint(1, max(1, min(N, kmax)))
+            thr2 = int(sorted_vals[k2 - 1]) - 1 if rng.random() < 0.8 else int(sorted_vals[min(N - 1, k2)])
+            case["then"].append(dict(thr=thr2, dn=rng.randint(max(1, dd // 2), int(6.5 * dd)), dd=dd, order=rng.choice(["zxz", "zzx"]),
+                                     anglist=angle_list() if rng.random() < 0.6 else None, omit=rng.random() < 0.3))
+    return case
 
 
 def generate(rng, tier, n):
+    dense_at = set()
+    if tier == "quick":
+        dense_at = {3, n // 2}
+    elif tier == "thorough":
+        dense_at = set(range(7, n, max(1, n // 22)))
     for i in range(n):
-        if rng.random() < 0.15:
+        if i in dense_at:
+            yield gen_peaks(rng, tier, dense=True)
+        elif rng.random() < 0.15:
             yield gen_peaks(rng, tier)
         else:
             yield gen_clean(rng, tier)
+
+
+def _subcases(case):
+    """the calls a case makes, each as a flat case of its own (follow-up calls see the caller's in-place edits accumulated)"""
+    first = {k: v for k, v in case.items() if k != "then"}
+    subs = [first]
+    if case["kind"] == "clean":
+        cur = [list(r) for r in case["rows"]]
+        for t in case.get("then") or []:
+            for col, vals in (t.get("set") or {}).items():
+                for r_, v in zip(cur, vals):
+                    r_[CI[col]] = v
+            subs.append(dict(first, d=t["d"], keep_greater=t["keep_greater"], feature=t["feature"], omit=t.get("omit", False),
+                             rows=[list(r) for r in cur], set=t.get("set") or {}))
+    else:
+        cur = case["anglist"]
+        for t in case.get("then") or []:
+            if t.get("anglist") is not None:
+                cur = t["anglist"]
+            subs.append(dict(first, thr=t["thr"], dn=t["dn"], dd=t["dd"], order=t["order"], anglist=cur, omit=t.get("omit", False),
+                             rewrite=t.get("anglist") is not None))
+    return subs
 
 
 # ------------------------------------------------------------------ implementation adapters
@@ -550,108 +1015,220 @@ def _quiet():
     return contextlib.redirect_stdout(io.StringIO())
 
 
-def _clean_ids(df_rows, d, feature, keep_greater):
-    """run the real clean_by_distance on rows (list of 20 ints at scale S); return (ids, unchanged?)"""
-    import pandas as pd
-    from cryocat import cryomotl
-    arr = np.array(df_rows, dtype=np.float64) / S
-    df = pd.DataFrame(arr, columns=COLS)
-    m = cryomotl.Motl(df)
-    with _quiet():
-        m.clean_by_distance(d / S, feature, metric_id="score", keep_greater=keep_greater)
-    out = m.df
-    by_id = {r[CI["subtomo_id"]]: r for r in df_rows}
-    index_of = {r[CI["subtomo_id"]]: i for i, r in enumerate(df_rows)}
+def _attr(e):
+    """an exception as an observation; `where` is empty when no frame of the traceback lies inside cryocat (harness / third party)"""
+    where = ""
+    for fr in reversed(traceback.extract_tb(e.__traceback__)):
+        if "/cryocat/" in fr.filename.replace("\\", "/"):
+            where = f"{os.path.basename(fr.filename)}:{fr.lineno}"
+            break
+    return {"error": f"{type(e).__name__}: {str(e)[:300]}", "where": where, "etype": type(e).__name__}
+
+
+def _df_state(df):
+    return (df.to_numpy(copy=True), list(df.index), [str(c) for c in df.columns], [str(t) for t in df.dtypes])
+
+
+def _df_changed(df, state):
+    vals, index, cols, dts = state
+    if [str(c) for c in df.columns] != cols:
+        return "columns"
+    if list(df.index) != index:
+        return "index"
+    if [str(t) for t in df.dtypes] != dts:
+        return "dtypes"
+    now = df.to_numpy()
+    if now.shape != vals.shape or not np.array_equal(now, vals):
+        return "values"
+    return ""
+
+
+def _clean_call(df, sub, cryomotl):
+    """one real clean_by_distance on the caller-owned DataFrame `df`; keywords equal to the documented defaults are omitted when asked"""
+    rows = sub["rows"]
+    state = _df_state(df)
+    kw = {}
+    if not (sub.get("omit") and sub["keep_greater"] is True):
+        kw["keep_greater"] = sub["keep_greater"]
+    if not sub.get("omit"):
+        kw["metric_id"] = "score"
+    try:
+        m = cryomotl.Motl(df)
+        with _quiet():
+            m.clean_by_distance(sub["d"] / S, sub["feature"], **kw)
+        out = m.df
+    except Exception as e:
+        o = _attr(e)
+        o["input_modified"] = _df_changed(df, state)
+        return o
+    o = dict(input_modified=_df_changed(df, state), kept=None, unchanged=True, note="", dtypes={}, textual=[], n_out=int(len(out)))
+    cols = [str(c) for c in out.columns]
+    if cols != COLS:
+        o["note"] = "columns " + ",".join(cols)[:200]
+        o["unchanged"] = False
+        return o
+    # dtypes as returned (never coerced): a numeric field that comes back as text / object cannot be a particle field
+    o["dtypes"] = {c: str(out[c].dtype) for c in COLS if str(out[c].dtype) != "float64"}
+    o["textual"] = [c for c in COLS if out[c].dtype.kind not in "fiu"]
+    if o["textual"]:
+        return o
+    vals = np.column_stack([out[c].to_numpy() for c in COLS]) if len(out) else np.zeros((0, 20))
+    by_id = {r[CI["subtomo_id"]]: r for r in rows}
+    index_of = {r[CI["subtomo_id"]]: i for i, r in enumerate(rows)}
     ids, same = [], True
-    cols_ok = list(out.columns) == COLS if len(out.columns) else False
-    if not cols_ok and len(out) > 0:
-        return [], False, "columns"
-    vals = out[COLS].to_numpy(dtype=np.float64) if len(out) else np.zeros((0, 20))
     for r in vals:
-        sid = r[CI["subtomo_id"]] * S
-        if sid != int(sid) or int(sid) not in by_id:
+        sid = float(r[CI["subtomo_id"]]) * S
+        if sid != sid or sid != int(sid) or int(sid) not in by_id:
             same = False
             ids.append(-1)
             continue
         ids.append(index_of[int(sid)])
-        if [float(v) for v in (r * S)] != [float(v) for v in by_id[int(sid)]]:
+        if [float(v) * S for v in r] != [float(v) for v in by_id[int(sid)]]:
             same = False
-    return ids, same, ""
+    o["kept"] = ids
+    o["unchanged"] = same
+    return o
+
+
+def _run_clean(case):
+    import pandas as pd
+    from cryocat import cryomotl
+    subs = _subcases(case)
+    arr = np.array(subs[0]["rows"], dtype=np.float64) / S
+    df = pd.DataFrame(arr, columns=COLS, index=case.get("index"))  # the caller-owned object, shared by every call of the case
+    calls = []
+    for k, sub in enumerate(subs):
+        if k > 0:
+            for col, vals in sub["set"].items():  # a legitimate in-place edit by the caller between two calls
+                df[col] = np.array(vals, dtype=np.float64) / S
+        calls.append(_clean_call(df, sub, cryomotl))
+    return dict(calls=calls)
+
+
+def _write_csv(path, L):
+    with open(path, "w") as f:
+        for row in L:
+            f.write(",".join(repr(float(v)) for v in row) + "\n")
+
+
+def _peaks_call(Sm, Am, lst, L, sub, tmana):
+    before = (Sm.copy(), Am.copy(), L.copy())
+    kw = dict(scores_threshold=sub["thr"] / sub["sscale"])
+    if not (sub.get("omit") and sub["order"] == "zxz"):
+        kw["angles_order"] = sub["order"]
+    if not (sub.get("omit") and sub["numbering"] == 0):
+        kw["angles_numbering"] = sub["numbering"]
+
+    def changed():
+        bad = [nm for nm, a, b in (("scores_map", Sm, before[0]), ("angles_map", Am, before[1]), ("angles_list", L, before[2]))
+               if a.shape != b.shape or a.dtype != b.dtype or not np.array_equal(a, b)]
+        if isinstance(lst, str):
+            try:
+                txt = open(lst).read()
+            except OSError:
+                txt = None
+            want = io.StringIO()
+            for row in L:
+                want.write(",".join(repr(float(v)) for v in row) + "\n")
+            if txt != want.getvalue():
+                bad.append("angles_list file")
+        return ",".join(bad)
+    try:
+        with _quiet():
+            m = tmana.scores_extract_particles(Sm, Am, lst, 7, sub["dn"] / sub["dd"], **kw)
+    except Exception as e:
+        o = _attr(e)
+        o["input_modified"] = changed()
+        if o["etype"] == "IndexError" and o["where"].startswith("tmana.py"):
+            return dict(result="bad-angle", detail=o["error"][:100], input_modified=o["input_modified"])
+        return o
+    o = dict(input_modified=changed())
+    if m is None:
+        o["result"] = "empty"
+        return o
+    df = m.df
+    want = ["x", "y", "z", "score", "phi", "theta", "psi"]
+    missing = [c for c in want if c not in df.columns]
+    if missing:
+        return dict(o, result="peaks", rows=[], exact=False, textual=[], dtypes={}, note="missing columns " + ",".join(missing))
+    o["dtypes"] = {c: str(df[c].dtype) for c in want}
+    o["textual"] = [c for c in want if df[c].dtype.kind not in "fiu"]
+    o["result"] = "peaks"
+    if o["textual"]:
+        return dict(o, rows=[], exact=False)
+    rows, exact = [], True
+    for x, y, z, s, phi, the, psi in zip(*[df[c].tolist() for c in want]):  # native python numbers of the returned dtype
+        vals = [x, y, z, s * sub["sscale"], phi * sub["ascale"], the * sub["ascale"], psi * sub["ascale"]]
+        if any(v != v or v in (float("inf"), float("-inf")) or v != int(v) for v in vals):
+            exact = False
+            rows.append([0 if (v != v or abs(v) == float("inf")) else int(round(v)) for v in vals])
+        else:
+            rows.append([int(v) for v in vals])
+    return dict(o, rows=rows, exact=exact)
+
+
+def _run_peaks(case):
+    from cryocat import tmana
+    subs = _subcases(case)
+    nx, ny, nz = case["dims"]
+    Sm = np.array(case["scores"], dtype=np.float64).reshape(nx, ny, nz) / case["sscale"]  # caller-owned, shared by every call
+    Am = np.array(case["angles"], dtype=np.float64).reshape(nx, ny, nz)
+    L = np.array(case["anglist"], dtype=np.float64) / case["ascale"]
+    calls = []
+    with tempfile.TemporaryDirectory(prefix="c07_") as td:
+        path = os.path.join(td, "angles.csv")
+        for k, sub in enumerate(subs):
+            if k > 0 and sub.get("rewrite"):
+                L[...] = np.array(sub["anglist"], dtype=np.float64) / case["ascale"]  # the caller rewrites the same array / the same file
+            if case.get("list_as") == "csv":
+                if k == 0 or sub.get("rewrite"):
+                    _write_csv(path, L)
+                lst = path
+            else:
+                lst = L
+            calls.append(_peaks_call(Sm, Am, lst, L, sub, tmana))
+    return dict(calls=calls)
 
 
 def run_impl(case):
-    if case["kind"] == "clean":
-        rows = case["rows"]
-        ids, same, note = _clean_ids(rows, case["d"], case["feature"], case["keep_greater"])
-        obs = dict(kept=ids, unchanged=same, note=note)
-        fi = CI[case["feature"]]
-        alone = {}
-        for g in sorted(set(r[fi] for r in rows)):
-            sub = [r for r in rows if r[fi] == g]
-            a_ids, a_same, _ = _clean_ids(sub, case["d"], case["feature"], case["keep_greater"])
-            alone[str(g)] = a_ids
-        obs["alone"] = alone
-        return obs
-    # ---- peaks
-    from cryocat import tmana
-    nx, ny, nz = case["dims"]
-    Sm = np.array(case["scores"], dtype=np.float64).reshape(nx, ny, nz) / case["sscale"]
-    Am = np.array(case["angles"], dtype=np.float64).reshape(nx, ny, nz)
-    L = np.array(case["anglist"], dtype=np.float64) / case["ascale"]
-    with tempfile.TemporaryDirectory(prefix="c07_") as td:
-        if case.get("list_as") == "csv":
-            path = os.path.join(td, "angles.csv")
-            with open(path, "w") as f:
-                for row in L:
-                    f.write(",".join(repr(float(v)) for v in row) + "\n")
-            lst = path
-        else:
-            lst = L
-        try:
-            with _quiet():
-                m = tmana.scores_extract_particles(Sm, Am, lst, 7, case["dn"] / case["dd"], scores_threshold=case["thr"] / case["sscale"],
-                                                   angles_order=case["order"], angles_numbering=case["numbering"])
-        except IndexError as e:
-            return dict(result="bad-angle", detail=str(e)[:100])
-    if m is None:
-        return dict(result="empty")
-    df = m.df
-    rows = []
-    exact = True
-    for x, y, z, s, phi, the, psi in df[["x", "y", "z", "score", "phi", "theta", "psi"]].to_numpy(dtype=np.float64):
-        vals = [x, y, z, s * case["sscale"], phi * case["ascale"], the * case["ascale"], psi * case["ascale"]]
-        if any(v != int(v) for v in vals):
-            exact = False
-        rows.append([int(round(v)) for v in vals])
-    return dict(result="peaks", rows=rows, exact=exact, subtomo=[int(v) for v in df["subtomo_id"].tolist()])
+    return _run_clean(case) if case["kind"] == "clean" else _run_peaks(case)
 
 
 # ------------------------------------------------------------------ model requests and judgement
-def _clean_req(case):
-    return dict(d=case["d"], keep_greater=1 if case["keep_greater"] else 0, feature=case["feature"], rows=case["rows"])
+def _clean_req(sub):
+    return dict(d=sub["d"], keep_greater=1 if sub["keep_greater"] else 0, feature=sub["feature"], rows=sub["rows"])
 
 
-def _peaks_req(case):
-    return dict(thr=case["thr"], dn=case["dn"], dd=case["dd"], dims=case["dims"], scores=case["scores"], angles=case["angles"],
-                anglist=case["anglist"], numbering=case["numbering"], order=case["order"])
+def _peaks_req(sub):
+    return dict(thr=sub["thr"], dn=sub["dn"], dd=sub["dd"], dims=sub["dims"], scores=sub["scores"], angles=sub["angles"],
+                anglist=sub["anglist"], numbering=sub["numbering"], order=sub["order"])
 
 
-def requests(case, obs):
-    if case["kind"] == "clean":
-        reqs = [dict(op="clean", **_clean_req(case))]
-        if "error" not in obs and all(0 <= i < len(case["rows"]) for i in obs["kept"]):
-            reqs.append(dict(op="check_clean", out=obs["kept"], **_clean_req(case)))
+def _reqs(sub, o):
+    if sub["kind"] == "clean":
+        reqs = [dict(op="clean", **_clean_req(sub))]
+        if "error" not in o and o.get("kept") is not None and all(0 <= i < len(sub["rows"]) for i in o["kept"]):
+            reqs.append(dict(op="check_clean", out=o["kept"], **_clean_req(sub)))
         return reqs
-    reqs = [dict(op="peaks", **_peaks_req(case))]
-    if obs.get("result") == "peaks" and all(min(r[:3]) >= 0 for r in obs["rows"]):
-        reqs.append(dict(op="check_peaks", out=obs["rows"], **_peaks_req(case)))
+    reqs = [dict(op="peaks", **_peaks_req(sub))]
+    if o.get("result") == "peaks" and not o.get("textual") and not o.get("note") and all(min(r[:3]) >= 0 for r in o["rows"]):
+        reqs.append(dict(op="check_peaks", out=o["rows"], **_peaks_req(sub)))
     return reqs
 
 
-def _score_ties(case):
-    fi = CI[case["feature"]]
+def requests(case, obs):
+    if "calls" not in obs:
+        return []
+    out = []
+    for sub, o in zip(_subcases(case), obs["calls"]):
+        out += _reqs(sub, o)
+    return out
+
+
+def _score_ties(sub):
+    fi = CI[sub["feature"]]
     seen = set()
-    for r in case["rows"]:
+    for r in sub["rows"]:
         k = (r[fi], r[CI["score"]])
         if k in seen:
             return True
@@ -659,77 +1236,135 @@ def _score_ties(case):
     return False
 
 
-def judge(case, obs, resps):
+def _raised(o):
+    """an exception is a finding of the property only when cryocat itself raised it"""
+    if not o.get("where"):
+        return dict(kind="corr", clause="harness-or-library-raised", detail="no frame of the traceback lies inside cryocat: " + o["error"])
+    return dict(kind="spec", clause="raises", detail=o["error"] + " @" + o["where"])
+
+
+def _judge_clean(sub, o, rs):
     out = []
-    if "error" in obs:
-        return [dict(kind="spec", clause="raises", detail=obs["error"] + " @" + obs.get("where", ""))]
-    model = resps[0]
+    if "error" in o:
+        out.append(_raised(o))
+        if o.get("input_modified"):
+            out.append(dict(kind="spec", clause="caller-owned-input-modified", detail=f"the DataFrame passed to Motl(...) differs after the call: {o['input_modified']}"))
+        return out
+    model = rs[0]
     if "error" in model:
         return [dict(kind="corr", clause="model-rejects-input", detail=str(model))]
-    if case["kind"] == "clean":
-        n = len(case["rows"])
-        kept = obs["kept"]
-        if not obs["unchanged"] or any(i < 0 for i in kept):
-            out.append(dict(kind="spec", clause="remaining-not-an-input-particle", detail=f"a remaining row is not bit-identical to the input row with its subtomo_id {obs.get('note','')}"))
-        if len(set(kept)) != len(kept):
-            out.append(dict(kind="spec", clause="remaining-not-an-input-particle", detail="a particle remains twice"))
-        chk = resps[1] if len(resps) > 1 else None
-        fi = CI[case["feature"]]
-        pos = [[r[CI[c]] + r[CI[sc]] for c, sc in (("x", "shift_x"), ("y", "shift_y"), ("z", "shift_z"))] for r in case["rows"]]
-        tie = _has_tie(pos, [r[fi] for r in case["rows"]], case["d"])  # outside the quantifier: only impl vs model is compared
-        if chk is not None and "error" not in chk and not chk["ok"] and not tie:
-            out.append(dict(kind="spec", clause=chk["clause"], detail=f"verified checker checkClean rejects the survivors {kept[:30]} of {n} particles (d={case['d']/S}, keep_greater={case['keep_greater']}, group field {case['feature']})"))
-        # groups never affect each other: survivors of group g == survivors when group g is cleaned alone
-        for g, alone in obs["alone"].items():
-            members = [i for i, r in enumerate(case["rows"]) if r[fi] == int(g)]
-            restricted = [members.index(i) for i in kept if i in members]
-            if restricted != alone:
-                out.append(dict(kind="spec", clause="groups-affect-each-other",
-                                detail=f"group {int(g)/S}: survivors inside the full list {restricted[:20]} != survivors when cleaned alone {alone[:20]} (positions within the group)"))
-                break
-        if not out and kept != model["kept"]:
-            if _score_ties(case) and sorted(kept) != sorted(model["kept"]) and chk is not None and chk.get("ok"):
-                pass  # equal scores processed in another order: a different, valid result (accepted by the verified checker)
-            else:
-                out.append(dict(kind="corr", clause="survivors-differ-from-model", detail=f"impl {kept[:30]} model {model['kept'][:30]}"))
+    n = len(sub["rows"])
+    if o.get("input_modified"):
+        out.append(dict(kind="spec", clause="caller-owned-input-modified", detail=f"the DataFrame passed to Motl(...) differs after clean_by_distance: {o['input_modified']}"))
+    if o.get("textual"):
+        out.append(dict(kind="spec", clause="numeric-field-returned-as-text", detail=f"columns {o['textual']} of the cleaned list are not numeric: { {c: o['dtypes'].get(c) for c in o['textual']} }"))
         return out
-    # ---- peaks
-    sup = [s for s in case["scores"] if s > case["thr"]]
-    res = obs["result"]
+    kept = o["kept"]
+    if kept is None or not o["unchanged"] or any(i < 0 for i in kept):
+        out.append(dict(kind="spec", clause="remaining-not-an-input-particle", detail=f"a remaining row is not bit-identical to the input row with its subtomo_id {o.get('note','')}"))
+    chk = rs[1] if len(rs) > 1 else None
+    tie = _rows_tie(sub["rows"], sub["feature"], sub["d"])  # a pair at distance exactly d: reported only when both readings reject
+    if chk is not None and "error" in chk:
+        out.append(dict(kind="corr", clause="checker-rejects-encoding", detail=str(chk)))
+    elif chk is not None:
+        rejected = (not chk["ok"]) and (not tie or not chk["ok_le"])
+        indep = chk["independent"] or (tie and chk["independent_le"])
+        what = f"survivors {kept[:30]} of {n} particles (d={sub['d']/S}, keep_greater={sub['keep_greater']}, group field {sub['feature']}, keywords omitted={bool(sub.get('omit'))})"
+        if rejected:
+            badg = [f"{g['group']/S}:{g['clause']}" for g in chk["groups"] if not g["ok"]][:4]
+            out.append(dict(kind="spec", clause=chk["clause"], detail=f"verified checker checkClean rejects the {what}" + (f"; the result is rejected under `dist <= d` as well ({chk['clause_le']})" if tie else "")
+                            + (f"; groups failing on their own sub-list: {badg}" if badg else "")))
+        elif not indep:
+            badg = [f"{g['group']/S}:{g['clause']}" for g in chk["groups"] if not g["ok"]][:4]
+            out.append(dict(kind="spec", clause="groups-affect-each-other", detail=f"verified checker, applied to each group's sub-list, rejects {badg}: {what}"))
+    if o.get("dtypes") and not out:
+        out.append(dict(kind="corr", clause="dtype-differs-from-input", detail=f"float64 columns came back as {o['dtypes']}"))
+    if not out and kept != model["kept"]:
+        if _score_ties(sub) and sorted(kept) != sorted(model["kept"]) and chk is not None and chk.get("ok"):
+            pass  # equal scores processed in another order: a different, valid result (accepted by the verified checker)
+        else:
+            out.append(dict(kind="corr", clause="survivors-differ-from-model", detail=f"impl {kept[:30]} model {model['kept'][:30]}"))
+    return out
+
+
+def _judge_peaks(sub, o, rs):
+    out = []
+    if "error" in o:
+        out.append(_raised(o))
+        if o.get("input_modified"):
+            out.append(dict(kind="spec", clause="caller-owned-input-modified", detail=f"changed by the call: {o['input_modified']}"))
+        return out
+    model = rs[0]
+    if "error" in model:
+        return [dict(kind="corr", clause="model-rejects-input", detail=str(model))]
+    if o.get("input_modified"):
+        out.append(dict(kind="spec", clause="caller-owned-input-modified", detail=f"changed by scores_extract_particles: {o['input_modified']}"))
+    nb, L = sub["numbering"], len(sub["anglist"])
+    sup = [(s, a) for s, a in zip(sub["scores"], sub["angles"]) if s > sub["thr"]]
+    res = o["result"]
     if res == "empty":
         if sup:
             out.append(dict(kind="spec", clause="no-peaks-although-voxels-exceed-threshold", detail=f"{len(sup)} voxels above the threshold, None returned"))
     elif res == "bad-angle":
-        if model["result"] != "bad-angle":
-            out.append(dict(kind="spec" if not case.get("bad_angle") else "corr", clause="raises", detail="IndexError from the angle list: " + obs.get("detail", "")))
+        if all(nb <= a < nb + L for _, a in sup):  # every entry a peak could read points to a list row: the call must not raise
+            out.append(dict(kind="spec", clause="raises", detail="IndexError from the angle list although every supra-threshold voxel's angle-map entry points to a row of the list: " + o.get("detail", "")))
+        elif model["result"] != "bad-angle":
+            out.append(dict(kind="corr", clause="result-kind-differs-from-model", detail="IndexError from the angle list: " + o.get("detail", "")))
         return out
     else:
-        if not obs["exact"]:
-            out.append(dict(kind="spec", clause="peak-does-not-carry-voxel-score-position-angles-or-is-below-threshold", detail="a peak value is not on the input grid"))
-        chk = resps[1] if len(resps) > 1 else None
-        if chk is None or "error" in chk:
-            out.append(dict(kind="spec", clause="peak-does-not-carry-voxel-score-position-angles-or-is-below-threshold", detail=f"peak table not checkable: {chk}"))
+        if o.get("textual"):
+            out.append(dict(kind="spec", clause="numeric-field-returned-as-text", detail=f"columns {o['textual']} of the extracted list are not numeric: {o['dtypes']}"))
+            return out
+        if o.get("note") or not o["exact"]:
+            out.append(dict(kind="spec", clause="peak-does-not-carry-voxel-score-position-angles-or-is-below-threshold", detail="a peak value is not on the input grid " + o.get("note", "")))
+        chk = rs[1] if len(rs) > 1 else None
+        if chk is None:
+            if not out:
+                out.append(dict(kind="spec", clause="peak-does-not-carry-voxel-score-position-angles-or-is-below-threshold", detail="a peak position is below 1 (no voxel has it as 1-based position)"))
+        elif "error" in chk:
+            out.append(dict(kind="corr", clause="checker-rejects-encoding", detail=str(chk)))
         elif not chk["ok"]:
             out.append(dict(kind="spec", clause=chk["clause"],
-                            detail=f"verified checker checkPeaks rejects the peak table (first rows {obs['rows'][:4]}; D={case['dn']}/{case['dd']}, thr={case['thr']}, order={case['order']}, numbering={case['numbering']}, list as {case.get('list_as')})"))
+                            detail=f"verified checker checkPeaks rejects the peak table (first rows {o['rows'][:4]}; {len(o['rows'])} peaks for {len(sup)} voxels above the threshold; D={sub['dn']}/{sub['dd']}, thr={sub['thr']}, order={sub['order']}, numbering={sub['numbering']}, list as {sub.get('list_as')}, keywords omitted={bool(sub.get('omit'))})"))
     if not out:
         if model["result"] != res:
             out.append(dict(kind="corr", clause="result-kind-differs-from-model", detail=f"impl {res} model {model['result']}"))
-        elif res == "peaks" and model["rows"] != obs["rows"]:
-            out.append(dict(kind="corr", clause="peak-table-differs-from-model", detail=f"impl {obs['rows'][:5]} model {model['rows'][:5]}"))
+        elif res == "peaks" and model["rows"] != o["rows"]:
+            out.append(dict(kind="corr", clause="peak-table-differs-from-model", detail=f"impl {o['rows'][:5]} model {model['rows'][:5]}"))
     return out
 
 
+def judge(case, obs, resps):
+    if "calls" not in obs:  # raised outside the guarded library calls
+        return [_raised(obs) if "error" in obs else dict(kind="corr", clause="harness-or-library-raised", detail=str(obs)[:300])]
+    out, at = [], 0
+    for k, (sub, o) in enumerate(zip(_subcases(case), obs["calls"])):
+        nreq = len(_reqs(sub, o))
+        rs = resps[at:at + nreq]
+        at += nreq
+        fs = _judge_clean(sub, o, rs) if case["kind"] == "clean" else _judge_peaks(sub, o, rs)
+        for f in fs:
+            if k > 0:
+                f["detail"] = f"[call {k + 1} of the case, same caller-owned inputs as the calls before] " + f["detail"]
+        out += fs
+    return out
+
+
+def classify(case, obs, finding):
+    return None  # no open known finding belongs to C07
+
+
 def nontrivial(case, obs):
-    if "error" in obs:
+    if "calls" not in obs or not obs["calls"] or "error" in obs["calls"][0]:
         return False
+    o = obs["calls"][0]
     if case["kind"] == "clean":
         n = len(case["rows"])
-        return n >= 3 and 1 <= len(obs["kept"]) < n
-    if obs.get("result") != "peaks":
+        return n >= 3 and o.get("kept") is not None and 1 <= len(o["kept"]) < n
+    if o.get("result") != "peaks":
         return False
     nsup = sum(1 for s in case["scores"] if s > case["thr"])
-    return nsup >= 2 and len(obs["rows"]) < nsup
+    return nsup >= 2 and len(o["rows"]) < nsup
 
 
 def _bucket(n, edges):
@@ -740,53 +1375,86 @@ def _bucket(n, edges):
 
 
 def stats(case, obs, resps):
+    calls = obs.get("calls") or [{}]
+    o = calls[0]
     if case["kind"] == "clean":
         n = len(case["rows"])
         fi = CI[case["feature"]]
         st = {"kind": "clean", "clean.n": _bucket(n, [2, 10, 40, 80, 200, 400]), "clean.groups": len(set(r[fi] for r in case["rows"])),
               "clean.feature": case["feature"], "clean.keep_greater": case["keep_greater"], "clean.layout": case.get("layout", "corpus"),
               "clean.scores": case.get("scores", "corpus"), "clean.d": _bucket(case["d"] / S, [1, 2, 5, 10, 24]),
-              "clean.shifted": any(r[CI["shift_x"]] or r[CI["shift_y"]] or r[CI["shift_z"]] for r in case["rows"])}
-        if "error" not in obs:
-            st["clean.removed_fraction"] = _bucket(100 * (n - len(obs["kept"])) // max(1, n), [0, 25, 50, 75, 99])
-            if resps and "kept" in resps[0] and resps[0]["kept"] != obs["kept"]:
+              "clean.shifted": any(r[CI["shift_x"]] or r[CI["shift_y"]] or r[CI["shift_z"]] for r in case["rows"]),
+              "clean.group_values": case.get("groups", "corpus"), "clean.index": case.get("index_kind", "range"),
+              "clean.keywords_omitted": bool(case.get("omit")), "clean.calls_on_same_input": 1 + len(case.get("then") or []),
+              "clean.exact_distance_tie": _rows_tie(case["rows"], case["feature"], case["d"])}
+        if "error" not in o and o.get("kept") is not None:
+            st["clean.removed_fraction"] = _bucket(100 * (n - len(o["kept"])) // max(1, n), [0, 25, 50, 75, 99])
+            st["clean.returned_dtypes"] = "float64" if not o.get("dtypes") else str(sorted(set(o["dtypes"].values())))
+            if resps and "kept" in resps[0] and resps[0]["kept"] != o["kept"]:
                 st["clean.tie_divergence"] = True
         return st
     nsup = sum(1 for s in case["scores"] if s > case["thr"])
     st = {"kind": "peaks", "peaks.voxels": _bucket(case["dims"][0] * case["dims"][1] * case["dims"][2], [64, 512, 4096, 27000, 64000]),
-          "peaks.above_threshold": _bucket(nsup, [0, 1, 10, 100, 500, 1500]), "peaks.diameter": _bucket(case["dn"] / case["dd"], [0.99, 1, 2, 3, 5, 7]),
+          "peaks.above_threshold": _bucket(nsup, [0, 1, 10, 100, 500, 1500, 32768]), "peaks.diameter": _bucket(case["dn"] / case["dd"], [0.99, 1, 2, 3, 5, 7]),
           "peaks.order": case["order"], "peaks.numbering": case["numbering"], "peaks.list_as": case.get("list_as"),
-          "peaks.threshold": case.get("thr_kind", "corpus"), "peaks.result": obs.get("result", "error"), "peaks.field": case.get("field", "corpus"),
-          "peaks.flat_box": min(case["dims"]) <= 2}
-    if obs.get("result") == "peaks":
-        st["peaks.extracted"] = _bucket(len(obs["rows"]), [1, 5, 20, 100, 500])
-        st["peaks.suppressed"] = _bucket(nsup - len(obs["rows"]), [0, 5, 50, 500])
+          "peaks.threshold": case.get("thr_kind", "corpus"), "peaks.result": o.get("result", "error"), "peaks.field": case.get("field", "corpus"),
+          "peaks.flat_box": min(case["dims"]) <= 2, "peaks.keywords_omitted": bool(case.get("omit")),
+          "peaks.calls_on_same_input": 1 + len(case.get("then") or [])}
+    if o.get("result") == "peaks":
+        st["peaks.extracted"] = _bucket(len(o["rows"]), [1, 5, 20, 100, 500])
+        st["peaks.suppressed"] = _bucket(nsup - len(o["rows"]), [0, 5, 50, 500])
+        st["peaks.returned_dtypes"] = str(sorted(set((o.get("dtypes") or {}).values())))
     return st
 
 
 def sample_view(case):
     if case["kind"] == "clean":
         return dict(kind="clean", n=len(case["rows"]), d=case["d"] / S, feature=case["feature"], keep_greater=case["keep_greater"], layout=case.get("layout"),
+                    group_values=case.get("groups"), index=case.get("index_kind"), keywords_omitted=case.get("omit"), further_calls=len(case.get("then") or []),
                     first_rows=[{c: r[CI[c]] / S for c in ("score", case["feature"], "x", "y", "z", "shift_x")} for r in case["rows"][:3]])
     return dict(kind="peaks", dims=case["dims"], thr=case["thr"] / case["sscale"], diameter=case["dn"] / case["dd"], order=case["order"],
-                numbering=case["numbering"], list_rows=len(case["anglist"]), list_as=case.get("list_as"), above_threshold=sum(1 for s in case["scores"] if s > case["thr"]))
+                numbering=case["numbering"], list_rows=len(case["anglist"]), list_as=case.get("list_as"), keywords_omitted=case.get("omit"),
+                further_calls=len(case.get("then") or []), above_threshold=sum(1 for s in case["scores"] if s > case["thr"]))
 
 
 # ------------------------------------------------------------------ shrinking
+def _cut(case, keep):
+    """the clean case restricted to the rows `keep` (positions), follow-up edits and index labels cut alike"""
+    c = dict(case, rows=[case["rows"][i] for i in keep])
+    if case.get("index") is not None:
+        c["index"] = [case["index"][i] for i in keep]
+    c["then"] = [dict(t, set={col: [v[i] for i in keep] for col, v in (t.get("set") or {}).items()}) for t in case.get("then") or []]
+    return c
+
+
 def shrink(case):
+    subs = _subcases(case)
+    if len(subs) > 1:
+        yield dict(case, then=[])
+        for sub in subs[1:]:  # a follow-up call as a case of its own
+            alone = {k: v for k, v in sub.items() if k not in ("set", "rewrite")}
+            alone["then"] = []
+            yield alone
+        if len(case["then"]) > 1:
+            yield dict(case, then=case["then"][:1])
     if case["kind"] == "clean":
         rows = case["rows"]
         n = len(rows)
         if n > 1:
-            yield dict(case, rows=rows[: n // 2])
-            yield dict(case, rows=rows[n // 2:])
+            yield _cut(case, list(range(n // 2)))
+            yield _cut(case, list(range(n // 2, n)))
             if n <= 24:
                 for i in range(n):
-                    yield dict(case, rows=rows[:i] + rows[i + 1:])
+                    yield _cut(case, [j for j in range(n) if j != i])
             else:
-                for k in range(0, n, max(1, n // 8)):
-                    yield dict(case, rows=rows[:k] + rows[k + max(1, n // 8):])
-        # fold the shifts into the coordinates, zero unrelated fields
+                w = max(1, n // 8)
+                for k in range(0, n, w):
+                    yield _cut(case, [j for j in range(n) if not (k <= j < k + w)])
+        if case.get("index") is not None:
+            yield dict(case, index=None)
+        if case.get("omit"):
+            yield dict(case, omit=False)
+        # fold the shifts into the coordinates
         simple = []
         for r in rows:
             q = list(r)
@@ -798,12 +1466,13 @@ def shrink(case):
             yield dict(case, rows=simple)
         return
     nx, ny, nz = case["dims"]
+    big = nx * ny * nz > 20000  # one evaluation costs seconds: halvings only
     sc = np.array(case["scores"], dtype=object).reshape(nx, ny, nz)
     an = np.array(case["angles"], dtype=object).reshape(nx, ny, nz)
     for ax in range(3):
         m = case["dims"][ax]
         if m > 1:
-            for sl in (slice(0, m // 2), slice(m // 2, m), slice(0, m - 1), slice(1, m)):
+            for sl in ((slice(0, m // 2), slice(m // 2, m)) if big else (slice(0, m // 2), slice(m // 2, m), slice(0, m - 1), slice(1, m))):
                 idx = [slice(None)] * 3
                 idx[ax] = sl
                 s2, a2 = sc[tuple(idx)], an[tuple(idx)]
@@ -811,9 +1480,27 @@ def shrink(case):
     above = sorted(s for s in case["scores"] if s > case["thr"])
     if len(above) > 2:
         yield dict(case, thr=above[len(above) // 2] - 1)
-        yield dict(case, thr=above[1] - 1 if False else above[-3] + 1)
+        if not big:
+            yield dict(case, thr=above[-3] + 1)
     if case.get("list_as") == "csv":
         yield dict(case, list_as="array")
+    if case.get("omit"):
+        yield dict(case, omit=False)
+
+
+def corpus():
+    """stored cases; cases written before the hardening pass lack the newer fields"""
+    import glob, json
+    out = []
+    for p in sorted(glob.glob(os.path.join(core.VERIF, "corpus", PROP, "*.json"))):
+        d = json.load(open(p))
+        out.extend(d if isinstance(d, list) else [d])
+    for c in out:
+        c.setdefault("then", [])
+        c.setdefault("omit", False)
+        if c["kind"] == "clean":
+            c.setdefault("index", None)
+    return out
 
 
 # ------------------------------------------------------------------ probes of recorded assumptions
@@ -836,18 +1523,22 @@ def probes(rng):
     a = np.array([[3.0, 4.0, 0.0], [0.0, 0.0, 0.0], [1.0, 2.0, 2.0]])
     nrm = np.linalg.norm(a - np.zeros((3, 3)), axis=1)
     out.append(dict(name="np.linalg.norm exact on perfect squares of the grid", ok=bool(nrm[0] == 5.0 and nrm[1] == 0.0 and nrm[2] == 3.0), detail=str(nrm)))
+    big = np.array([(10 ** 9 + 47) * S, (10 ** 9 + 48) * S], dtype=np.float64) / S
+    out.append(dict(name="group ids up to 1e9+50 on the 2^-10 grid are exact float64 values (adjacent ids stay different)", ok=bool(big[0] == 10 ** 9 + 47 and big[1] - big[0] == 1.0), detail=str(big)))
     return out
 
 
 LEVEL_TEXT = ("Lean 4 theorems about an executable model of the greedy suppression shared by Motl.clean_by_distance and tmana.scores_extract_particles: "
               "for every candidate list, every suppression relation and every processing order non-increasing in score (greedy_sublist/_separated/_dominated); "
               "for every particle list, grouping field, radius and score direction (cleanByDistance_spec = separated + dominated + remaining + groups independent, "
-              "clean_single_group); for score/angle maps of any size given as flat arrays (peaks_above_threshold, peaks_carry, extractPeaks_reads_maps, peaks_separated, "
-              "peaks_far, peaks_cover, extractPeaks_covers_map, peaks_none_iff); soundness of the two checkers run on the implementation's outputs "
-              "(checkClean_sound, checkPeaks_sound). The model is tied to the source by regenerated operators / directions / offsets / column permutations "
-              "(17 anchors, 6 translator theorems) and by an exact differential run of the real functions against the model on generated lists and maps")
+              "clean_single_group); the clauses decompose over the groups for ANY claimed result (spec_iff_groups); for score/angle maps of any size given as flat "
+              "arrays (peaks_above_threshold, peaks_carry, extractPeaks_reads_maps, peaks_separated, peaks_far, peaks_cover, extractPeaks_covers_map, peaks_none_iff, "
+              "peakOf_below_numbering); soundness of the checkers run on the implementation's outputs (checkClean_sound incl. Remaining and no-duplicate, "
+              "checkCleanLe_sound for lists with an exact-distance tie, checkIndependent_sound for the per-group verdicts, checkPeaks_sound). The model is tied to the "
+              "source by regenerated operators / directions / offsets / column permutations / signature defaults / normalised whole-body digests of the six functions "
+              "(28 anchors, rename-insensitive; 9 translator theorems) and by an exact differential run of the real functions against the model on generated lists and maps")
 LEVEL_NOTE = ("trusted: Lean kernel; translator anchors; integer scaling of dyadic inputs; squared-distance form of the comparisons (d > 0); "
               "KD-tree ball query = brute force (probed); numpy exact on the grid. Not modelled: dist_mask, cluster_size, n_particles, sigma/triangle thresholds, "
               "symmetry randomisation, tomo_mask, file output")
-TECHNIQUE = "Lean 4 proof (fold invariants of a greedy rule, list/permutation lemmas, index arithmetic) + regenerated operators + verified checkers on the implementation's output + exact differential correspondence"
+TECHNIQUE = "Lean 4 proof (fold invariants of a greedy rule, list/permutation lemmas, index arithmetic) + regenerated operators, defaults and body digests + verified checkers on the implementation's output + exact differential correspondence"
 DESIGN_REF = "DESIGN.md section 4, C07; Appendix A.1"
